@@ -217,6 +217,19 @@ func (b *Builder) Stmt(n *Node) *jen.Statement {
 	return real
 }
 
+// Partial builds the statement of n with its first k calls only and returns it together with a function
+// that applies the remaining calls to the same object (a caller that keeps a statement in a variable,
+// hands it on, and finishes it later).
+func (b *Builder) Partial(n *Node, k int) (*jen.Statement, func()) {
+	st := make(jen.Statement, 0, 16)
+	s := &st
+	if k > len(n.Calls) {
+		k = len(n.Calls)
+	}
+	b.applyUpTo(s, n.Calls, 0, k)
+	return s, func() { b.applyUpTo(s, n.Calls, k, len(n.Calls)) }
+}
+
 // NoCloneForm switches the clone form of Stmt off (for checks that count the items of a statement).
 var NoCloneForm bool
 
